@@ -174,8 +174,19 @@ impl PersistentStorageImpl {
         }
     }
 
-    pub async fn delete_value(&self, key: &Key) -> PersistenceResult<()> {
+    pub async fn delete_value(&self, key: &Key, client_id: ClientId) -> PersistenceResult<()> {
         if key.starts_with(SYSTEM_TOPIC_ROOT_PREFIX) {
+            // a client withdrawing a grave goods / last will registration by deleting its key is the
+            // same as registering nothing: it must leave the persisted registrations, too (the
+            // server's own clean-up at the end of a session removes them once they are applied)
+            if client_id != INTERNAL_CLIENT_ID
+                && (is_grave_goods_topic(key) || is_last_will_topic(key))
+                && let Some(owner) = registration_owner(key)
+            {
+                return self
+                    .update_value(key, &ValueEntry::Plain(json!(null)), Some(owner))
+                    .await;
+            }
             return Ok(());
         }
 
@@ -274,6 +285,11 @@ impl PersistentStorageImpl {
             PersistentStorageImpl::Noop => Ok(()),
         }
     }
+}
+
+/// The client a `$SYS/clients/<id>/...` key belongs to.
+fn registration_owner(key: &str) -> Option<ClientId> {
+    key.split('/').nth(2)?.parse().ok()
 }
 
 fn is_grave_goods_topic(key: &str) -> bool {
